@@ -73,12 +73,12 @@ def run(tier, seed, replay=None):
         rule="csg_imc_solve runs on generated .gmc/.imc/.idx files: 1..8 unknowns, symmetric, non-symmetric, triangular and integer matrices, r from 1e-3 to 300, "
              "1..3 index ranges; the written tables checked against the normal equations of the file's matrix in exact arithmetic and against the exact "
              "solution; linalg_constrained_qrsolve on well-posed problems with 2..8 unknowns, 0..n-1 full-rank constraints, dyadic and generic entries: "
-             "feasibility and stationarity residuals with multipliers supplied by the harness; csg_fmatch runs (executable) on 20-70 beads of two types plus dimers (bond) and trimers (two bonds and an angle; 1-3 pairs excluded), "
+             "feasibility and stationarity residuals with multipliers supplied by the harness; csg_fmatch runs (executable) on 20-70 beads of two types plus dimers (bond), trimers (two bonds and an angle) and tetramers (three bonds, two angles and a dihedral; all pairs inside a molecule excluded), "
              "2-6 frames, 1-3 frames per block, constrained and plain least squares, reference forces generated exactly from natural cubic splines on the "
              "force-matching grids: the forces recomputed from the written .force tables must reproduce every reference force",
         assumptions=["Eigen's SelfAdjointEigenSolver and HouseholderQR are external: certified per run by exact residuals (tolerance 1e-7 relative to the problem scale)",
                      "csg_fmatch: runs in which some grid interval receives fewer than three samples in some block are not judged (the least-squares problem is "
-                     "then not well posed); three-body and dihedral force matching are not generated (their gradients: C07); the angle values enter the model as witnesses (python acos) whose cosines are checked against the geometry with a 30-term Taylor polynomial, triples with sin θ < 0.05 are not judged; square roots in the force "
+                     "then not well posed); three-body force matching is not generated; the angle and dihedral values enter the model as witnesses (python acos) whose cosines (and, for dihedrals, signs) are checked against the geometry with a 30-term Taylor polynomial, triples with sin θ < 0.05 are not judged; square roots in the force "
                      "recomputation are 20-digit rational approximations, forces compared to 1e-5 of the largest force",
                      "ill-posed inputs (rank-deficient constraints, zero columns, r <= 0) are not generated"],
         trivial_tags=("fmatch-skip-under-sampled",))
